@@ -29,12 +29,11 @@ def check(seed, tier):
         raise core.ToolError("C09: %d of %d generated raw programs are outside the input class RawInClass" % (skipped, meta["events"]))
     whys = {}
     for r in results:
-        for p in r.printed:
-            if p.startswith('<<"WHY"'):
-                w = p.split(",", 2)[-1].strip(" >\"")
-                whys[w] = whys.get(w, 0) + 1
+        for line in r.badlines:
+            w = line.split(",", 2)[-1].strip(" >\"")
+            whys[w] = whys.get(w, 0) + 1
     if whys:
-        rep.notes.append("rejections by invariant: %s" % whys)
+        rep.notes.append("rejections by reason: %s" % whys)
 
     def mutate(evs):
         def ok(e):
